@@ -286,6 +286,29 @@ class SymTD:
             return SymTD((SymNum(self.t) % _td_secs(o)).t)
         raise Unsupported("SymTD % ?")
 
+    def __truediv__(self, o):
+        # timedelta / timedelta -> float ratio (second resolution on both sides)
+        if isinstance(o, timedelta):
+            return SymNum(z3.ToReal(self.t) / z3.RealVal(_td_secs(o)))
+        if isinstance(o, SymTD):
+            return SymNum(z3.ToReal(self.t) / z3.ToReal(o.t))
+        raise Unsupported("SymTD / number")
+
+    def __rtruediv__(self, o):
+        if isinstance(o, timedelta):
+            return SymNum(z3.RealVal(_td_secs(o)) / z3.ToReal(self.t))
+        raise Unsupported("? / SymTD")
+
+    def __mul__(self, o):
+        # whole multiples only (n * timeframe); a fractional factor would need timedelta's microsecond rounding
+        if isinstance(o, SymNum) and o.t.sort().kind() == z3.Z3_INT_SORT:
+            return SymTD(self.t * o.t)
+        if isinstance(o, int) and not isinstance(o, bool):
+            return SymTD(self.t * z3.IntVal(o))
+        raise Unsupported("SymTD * non-integer")
+
+    __rmul__ = __mul__
+
     def __eq__(self, o):
         if isinstance(o, timedelta):
             return SymBool(self.t == z3.IntVal(_td_secs(o)))
